@@ -348,12 +348,15 @@ class Ctx:
         # known_findings.json is generated (tools/mkmanifest.py) from props/*/findings.json; both are
         # committed and neither is written at run time.  Reading the per-property file as well makes a
         # freshly recorded finding effective before the union file is regenerated.
+        byid = {}
         for path in (os.path.join(VERIF, "known_findings.json"),
                      os.path.join(VERIF, "props", self.prop, "findings.json")):
             try:
-                entries += json.load(open(path)).get("findings", [])
+                for e in json.load(open(path)).get("findings", []):
+                    byid[e.get("id", id(e))] = e      # the per-property file wins (e.g. known -> fixed)
             except (FileNotFoundError, ValueError):
                 pass
+        entries = list(byid.values())
         for e in entries:
             if e.get("property") != self.prop or e.get("status") != "known":
                 continue
